@@ -471,10 +471,17 @@ fn used_imports<'a, 'b: 'a>(
         if let Some(type_names) = all_types.get(&referenced_import.base_crate) {
             if referenced_import.type_name == "*" {
                 // We can have "*" wildcard here. We need to add all.
+                // A name the importing crate defines itself shadows the glob, as it does in Rust.
+                let own_types = all_types.get(&data.crate_name);
                 used_imports
                     .entry(&referenced_import.base_crate)
                     .or_insert_with(BTreeSet::new)
-                    .extend(type_names.iter().map(|s| s.as_str()));
+                    .extend(
+                        type_names
+                            .iter()
+                            .filter(|name| !own_types.is_some_and(|own| own.contains(*name)))
+                            .map(|s| s.as_str()),
+                    );
             } else if let Some(ty_name) = type_names.get(&referenced_import.type_name) {
                 // Add referenced import for each matching type.
                 used_imports
